@@ -106,6 +106,7 @@ IFACES = ('s_element', 's_element_items', 's_group', 's_window', 'f_array0', 'f_
 def cases(draw, processes_share=0.12):
     # decisive choices first; the minimal value of every draw is the common / cheap case (threads, no failing task)
     what = draw(st.sampled_from(['iter'] * 6 + ['batch', 'batch', 'store']))
+    store_opts = draw(st.sampled_from(['full', 'no_index', 'no_columns', 'full']))  # options of the per-label store configurations
     iface = draw(st.sampled_from(IFACES))
     akw = draw(st.sampled_from([{}, {'dtype': object}, {}, {'name': 'res'}, {'dtype': object, 'name': ('n', 1)}]))  # options of apply / apply_pool
     use_threads = draw(st.floats(0, 1)) < (1 - processes_share)
@@ -114,7 +115,7 @@ def cases(draw, processes_share=0.12):
           'fail': draw(st.one_of(st.none(), st.none(), st.integers(0, n - 1))), 'step_ms': draw(st.sampled_from([2, 3, 4])),
           'batch_op': draw(st.sampled_from(['apply', 'apply_except', 'apply_items', 'sum', 'apply_items_except', 'iloc'])), 'fmt': draw(st.sampled_from(['zip_pickle', 'zip_csv'])),
           'fail_kind': draw(st.sampled_from(['ValueError', 'KeyError', 'ValueError', 'ZeroDivisionError']))}
-    return dict({'what': what, 'iface': iface, 'akw': akw, 'n': n, 'perm': draw(st.permutations(list(range(n)))), 'threads': use_threads}, **ch)
+    return dict({'what': what, 'store_opts': store_opts, 'iface': iface, 'akw': akw, 'n': n, 'perm': draw(st.permutations(list(range(n)))), 'threads': use_threads}, **ch)
 
 
 def _set_schedule(case, mult=1):
@@ -247,9 +248,17 @@ def check(case):
             writer = 'to_' + fmt
             reader = 'from_' + fmt
 
+            sopts = case.get('store_opts', 'full')
+
             def cfgmap(**wkw):
-                return sf.StoreConfigMap({f.name: sf.StoreConfig(index_depth=f.index.depth, columns_depth=1, include_index=True, include_columns=True, **wkw)
-                                          for f in frames}, default=sf.StoreConfig(**wkw))
+                # options set to False / 0 must reach the workers exactly as they reach the sequential route
+                def one(f):
+                    if sopts == 'no_index':
+                        return sf.StoreConfig(index_depth=0, columns_depth=1, include_index=False, include_columns=True, **wkw)
+                    if sopts == 'no_columns':
+                        return sf.StoreConfig(index_depth=f.index.depth, columns_depth=0, include_index=True, include_columns=False, **wkw)
+                    return sf.StoreConfig(index_depth=f.index.depth, columns_depth=1, include_index=True, include_columns=True, **wkw)
+                return sf.StoreConfigMap({f.name: one(f) for f in frames}, default=sf.StoreConfig(**wkw))
             cfg_seq = cfgmap()
             cfg_par = cfgmap(read_max_workers=case['workers'], write_max_workers=case['workers'],
                              read_chunksize=case['chunksize'], write_chunksize=case['chunksize'])
@@ -271,7 +280,13 @@ def check(case):
                     raise Failure('store-mismatch', 'store written/read with worker pools differs from the sequential form: %s vs %s' % (short(o, 300), short(outs[0], 300)))
             if [k for k, _ in outs[0]] != ['f%d' % i for i in range(n)]:
                 raise Failure('labels', 'store labels %s' % [k for k, _ in outs[0]])
+            if fmt != 'zip_pickle':
+                for o in outs:
+                    for k, sn in o:
+                        if tuple(sn[3]) != (2, 2):
+                            raise Failure('store-shape', 'store (%s, %s): frame %s read back with shape %s, written as (2, 2)' % (fmt, sopts, k, sn[3]))
             classes.append('store:' + fmt)
+            classes.append('store-opts:' + sopts)
             return {'nt': n >= 2 and case['workers'] >= 2, 'cls': classes}
         finally:
             shutil.rmtree(tmp, ignore_errors=True)
